@@ -1,6 +1,6 @@
 (* C06 — mapreduce accounts for every file of every server under any scheduling.
    Statements only. *)
-From DT Require Import Lib.Bytes Model.C06_Account Proofs.C06_Account Proofs.C06_Full.
+From DT Require Import Lib.Bytes Model.C06_Account Proofs.C06_Account Proofs.C06_Full Model.C01_Eof Proofs.C01_Eof.
 
 (* Client side, repaired (blocking Merge): whatever the servers send and however the messages of
    different connections interleave, every partial result is merged into the global group exactly
@@ -64,3 +64,8 @@ Proof. exact finish_only_by_stop. Qed.
 Example C06_requeue_blocked :
   srun true sinit [SAccept; SAccept; SRegister 0; SRegister 1; SFirst; SSwapIdle; SPush 0; SCloseDone 1; SStop] = None.
 Proof. vm_compute. reflexivity. Qed.
+
+(* End of file (a long mapreduce read: the last, unterminated line of a file still counts): see Props/C01.v; the operator of the truncation test comes from the source. *)
+Theorem C06_eof_delivers_rest : forall (tick pick pending : bool) (offset size : Z), (offset <= size)%Z ->
+  at_eof false tick false pick pending (Some offset) (Some size) = EofStop pending.
+Proof. exact eof_delivers_rest. Qed.
